@@ -247,6 +247,7 @@ int main(int argc, char **argv) {
   go.scaleShift = (int)argi("scaleShift", 0);
   go.globalDomain = argi("globalDomain", 0);
   go.singleRowOnly = argi("singleRowOnly", 0);
+  go.zeroAreaMovable = argi("zeroAreaMovable", 0);
   go.utilLo = atof(args("utilLo", "0.05").c_str());
   go.utilHi = atof(args("utilHi", "1.3").c_str());
   vg::ParamOpts po;
@@ -268,6 +269,13 @@ int main(int argc, char **argv) {
     uint64_t pseed = r.u() >> 1;
     vg::Rng pr(pseed);
     ColoquinteParameters p = vg::genParams(pr, po);
+    if (g.globalDomain) {
+      // stay inside the C06 domain: redraw until a free segment survives the side margin
+      for (int tries = 0; tries < 50 && !vg::inGlobalDomain(base, p.global.roughLegalization.sideMargin); ++tries) {
+        base = vg::genCircuit(r, g);
+      }
+      if (!vg::inGlobalDomain(base, p.global.roughLegalization.sideMargin)) continue;
+    }
     bool withCb = cbMode == 1 || (cbMode == 2 && r.chance(0.7));
     Value rs = vt::ev("Reset");
     Value pov = Value::object();
